@@ -31,6 +31,11 @@ TP(s)  == [t |-> "p", v |-> s, nl |-> FALSE]            \* punctuator (7.7)
 TK(s)  == [t |-> "k", v |-> s, nl |-> FALSE]            \* reserved word (7.6.1), incl. null true false
 TI(s)  == [t |-> "id", v |-> s, nl |-> FALSE]           \* identifier
 TIs(name, src) == [t |-> "id", v |-> name, nl |-> FALSE, src |-> src]   \* identifier written with escapes
+(* an IdentifierName written with a \u escape whose characters are a reserved *)
+(* word (7.6, 7.6.1): it is no Identifier (reserved) and it is not the        *)
+(* keyword / literal token either (those are spelled literally): usable only *)
+(* where an IdentifierName is (after ".", as a property name)                 *)
+TEk(word, src) == [t |-> "ek", v |-> word, nl |-> FALSE, src |-> src]
 TNum(src) == [t |-> "num", v |-> "", nl |-> FALSE, src |-> src]
 TStr(src) == [t |-> "str", v |-> "", nl |-> FALSE, src |-> src]
 TRe(body, flags) == [t |-> "re", v |-> "", nl |-> FALSE, body |-> body, flags |-> flags]
@@ -47,6 +52,7 @@ IdText(tk) == TokUnits[tk.v]          \* the IdentifierName's characters (escape
 TokText(tk) ==                        \* source text of a token
     CASE tk.t \in {"p", "k"} -> TokUnits[tk.v]
       [] tk.t = "id" -> IF "src" \in DOMAIN tk THEN tk.src ELSE TokUnits[tk.v]
+      [] tk.t = "ek" -> tk.src
       [] tk.t \in {"num", "str"} -> tk.src
       [] tk.t = "re" -> <<47>> \o tk.body \o <<47>> \o tk.flags
 
@@ -259,9 +265,9 @@ PArray(T, i, acc) ==
 (* 11.1.5 object initialiser *)
 (* otto: parseObjectPropertyKey takes ANY token as a property name (name "" unless it looks like an identifier) *)
 AnyKey(tk) == D("DP21_object_key_any_token") /\ tk.t \in {"p", "num"} /\ ~IsP(tk, "}")
-IsPropName(tk) == tk.t \in {"id", "k", "num", "str"} \/ AnyKey(tk)
+IsPropName(tk) == tk.t \in {"id", "k", "ek", "num", "str"} \/ AnyKey(tk)
 PropKey(tk) ==      \* [ok, key, why]: the property name (a String)
-    CASE tk.t \in {"id", "k"} -> [ok |-> TRUE, key |-> IdText(tk), why |-> ""]
+    CASE tk.t \in {"id", "k", "ek"} -> [ok |-> TRUE, key |-> IdText(tk), why |-> ""]
       [] tk.t = "str" -> LET sv == StrLitSV(tk.src) IN [ok |-> sv.ok, key |-> sv.s, why |-> sv.why]
       [] tk.t = "p" -> [ok |-> TRUE, key |-> <<>>, why |-> ""]
       [] tk.t = "num" -> IF ~NumLitOK(tk.src) THEN [ok |-> AnyKey(tk), key |-> <<>>, why |-> "syntax"]
@@ -341,7 +347,7 @@ PTail(T, i, left, call) ==   \* . name | [ expr ] | ( args ) when call
     LET tk == Tk(T, i) IN
     IF IsP(tk, ".") THEN
         (LET nm == Tk(T, i + 1)
-         IN  IF nm.t \in {"id", "k"} THEN PTail(T, i + 2, [k |-> "dot", o |-> left, n |-> nm.v], call)   \* IdentifierName
+         IN  IF nm.t \in {"id", "k", "ek"} THEN PTail(T, i + 2, [k |-> "dot", o |-> left, n |-> nm.v], call)   \* IdentifierName
              ELSE Fail(i + 1, "syntax"))
     ELSE IF IsP(tk, "[") THEN
         (LET r == PExpr(T, i + 1, FALSE)
@@ -697,8 +703,13 @@ SOK(s, ctx) ==
 EarlyOK(prog) == AllS(prog, Ctx0)
 
 (* accept (with the tree) / reject / skip (outside what ES5 decides) *)
+(* otto looks the decoded characters up in the keyword table: an escaped      *)
+(* reserved word becomes the keyword / literal token                          *)
+EffEk(T) ==
+    IF ~D("DP24_escaped_reserved_word_is_keyword") THEN T
+    ELSE [i \in 1..Len(T) |-> IF T[i].t = "ek" THEN [t |-> "k", v |-> T[i].v, nl |-> T[i].nl] ELSE T[i]]
 Classify(T0) ==
-    LET T == EffNL(T0)
+    LET T == EffNL(EffEk(T0))
         r == ParseProgram(T) IN
     IF r.ok THEN (IF EarlyOK(r.n) THEN [c |-> "accept", prog |-> r.n] ELSE [c |-> "reject", prog |-> <<>>])
     ELSE IF r.why \in {"ext", "lex"} THEN [c |-> "skip", prog |-> <<>>]
